@@ -11,8 +11,11 @@ Rec == ndJsonDeserialize(IOEnv.TRACE)
 CONSTANT Debug    \* TRUE: report every mismatching observation and keep going (diagnosis run)
 
 VARIABLES l,
-          prev     \* what the memory logically was before the last call (for crash events: the in-flight call is the last one)
-tvars == <<vars, l, prev>>
+          prev,    \* what the memory logically was before the last call (for crash events: the in-flight call is the last one)
+          qattr,   \* payload id -> what the document satisfies (query atoms, ACL metadata), registered by put events
+          qhist    \* query id -> the table it was first answered on and the answer (C28: same answers after reopen / doctor)
+tvars == <<vars, l, prev, qattr, qhist>>
+MQ == INSTANCE Mv2Query
 Snap == [exists |-> exists, frames |-> frames, pend |-> pend, tseq |-> ticket.seq]
 
 \* a checked observation: in a diagnosis run a failing one is reported and masked
@@ -88,6 +91,7 @@ Matches == Chk("result", IF last'.res = "ok" THEN ResOk ELSE ResErr(last'.res))
 
 (* --------------------------------- events -------------------------------- *)
 TraceInit == l = 1 /\ Init /\ prev = [exists |-> "no", frames |-> <<>>, pend |-> <<>>, tseq |-> 0]
+             /\ qattr = EmptyMap /\ qhist = EmptyMap
 
 TReset == /\ IsEvent("reset")
           /\ exists' = "no" /\ frames' = <<>> /\ pend' = <<>>
@@ -212,11 +216,11 @@ TVerify == /\ IsEvent("verify")
 Flag(a, f) == Has(a, f) /\ a[f]
 TDoctor == /\ IsEvent("doctor")
            /\ ResOk
-           /\ \/ Doctor(Flag(Ev.args, "vacuum"), Flag(Ev.args, "time") \/ Flag(Ev.args, "lex") \/ Flag(Ev.args, "vec"),
-                         Flag(Ev.args, "dry_run"), Ev.res.val.status)
-              \/ (Debug /\ PrintT(<<"MISMATCH", l, "result">>)
-                  /\ Doctor(Flag(Ev.args, "vacuum"), Flag(Ev.args, "time") \/ Flag(Ev.args, "lex") \/ Flag(Ev.args, "vec"),
-                            Flag(Ev.args, "dry_run"), IF Flag(Ev.args, "dry_run") THEN "PlanOnly" ELSE "Healed"))
+           /\ LET vac == Flag(Ev.args, "vacuum")
+                  reb == Flag(Ev.args, "time") \/ Flag(Ev.args, "lex") \/ Flag(Ev.args, "vec")
+                  dry == Flag(Ev.args, "dry_run") IN
+              /\ Chk("result", DoctorStatusAllowed(vac, reb, dry, Ev.res.val.status))
+              /\ DoctorEffect(vac, reb, dry, Ev.res.val.status)
            /\ Chk("doctor.verify", ResOk /\ last'.val = "Healed" => Ev.res.val.verify = "Passed")   \* C21: leaves a file that verifies
            /\ ObservedFile(Ev.obs) /\ Chk("dir", Ev.obs.dir = <<"m.mv2">>)
 
@@ -266,7 +270,110 @@ TraceStep == \/ TReset \/ TCreate \/ TCommit \/ TOpen \/ TOpenRO \/ TClose \/ TA
              \/ TTimeline \/ TByUri \/ TVecSet \/ TVerify \/ TDoctor
              \/ TBroken
 
-TraceNext == (TraceStep /\ prev' = Snap) \/ TCrash
+(* ----------------------- query events (query engine) ----------------------- *)
+SeqSet(sq) == {sq[i] : i \in 1..Len(sq)}
+Max2(a, b) == IF a > b THEN a ELSE b
+\* the table a read is answered from: a read-only handle sees the last commit, a writable one also its pending window
+Tab == IF hdl = "ro" THEN snap ELSE Apply(frames, pend)
+Committed == hdl = "ro" \/ pend = <<>>
+AttrsOf(tab, f) == LET fr == tab[f + 1] IN
+                   IF fr.pay \in DOMAIN qattr THEN qattr[fr.pay] ELSE [atoms |-> {}, acl |-> [shape |-> "missing"]]
+QAttrOf(a) == [atoms |-> IF Has(a, "atoms") THEN SeqSet(a.atoms) ELSE {}, acl |-> IF Has(a, "acl") THEN a.acl ELSE [shape |-> "missing"]]
+TabKey(tab) == [i \in 1..Len(tab) |-> <<tab[i].st, tab[i].pay, tab[i].emb>>]
+Cut(a) == Has(a, "as_of_frame") \/ Has(a, "as_of_ts")
+Enforce(a) == Has(a, "mode") /\ a.mode = "enforce"
+NeedTenant(a) == Enforce(a) /\ (~Has(a, "ctx") \/ ~Has(a.ctx, "tenant"))
+Dev(nm) == PrintT(<<"DEVIATION", l, nm>>)
+
+TSearch ==
+  /\ IsEvent("search") /\ Read("search")
+  /\ LET a == Ev.args
+         tab == Tab
+         r == MQ!QL!Parse(a.toks) IN
+     IF ~ResOk
+       THEN \* C12: Enforce without tenant is an error.  As built, a query whose lexical candidates are all rejected by
+            \* the evaluator falls back to the legacy index and fails with LexNotEnabled when there is none: accepted as
+            \* "no hits" (no listed property forbids it) unless a committed document does contain the single word asked for.
+            IF ResErr("LexNotEnabled")
+              THEN Chk("search.recall", (Has(a, "single") /\ Committed /\ ~Cut(a) /\ ~Enforce(a) /\ ~Has(a, "uri")) =>
+                        {i \in 0..(Len(tab) - 1) : tab[i + 1].st = "active" /\ a.single \in AttrsOf(tab, i).atoms} = {})
+              ELSE Chk("search.error", ResErr("InvalidQuery") /\ (NeedTenant(a) \/ ~r.ok))
+       ELSE LET v == Ev.res.val
+                hits == v.hits
+                n == Len(hits)
+                F(i) == hits[i].f
+                FS == {hits[i].f : i \in 1..n} IN
+         /\ Chk("search.enforce", ~NeedTenant(a))
+         /\ Chk("search.topk", n <= Max2(a.top_k, 1))                                                          \* C10
+         /\ Chk("search.rank", \A i \in 1..n : hits[i].rank = i)
+         /\ Chk("search.active", \A i \in 1..n : F(i) < Len(tab) /\ tab[F(i) + 1].st = "active")              \* C08 / C10
+         /\ Chk("search.sound", r.ok /\ \A i \in 1..n : F(i) < Len(tab) => MQ!QL!Eval(r.e, AttrsOf(tab, F(i)).atoms))   \* C10 / C28
+         /\ Chk("search.text", \A i \in 1..n : hits[i].text_ok /\ hits[i].a < hits[i].b /\ hits[i].ca <= hits[i].a /\ hits[i].b <= hits[i].cb)
+         /\ Chk("search.uri", Has(a, "uri") => \A i \in 1..n : F(i) < Len(tab) => tab[F(i) + 1].uri = a.uri)
+         /\ Chk("search.asof", /\ (Has(a, "as_of_frame") => \A i \in 1..n : F(i) <= a.as_of_frame)               \* C11
+                                /\ (Has(a, "as_of_ts") => \A i \in 1..n : F(i) < Len(tab) => tab[F(i) + 1].ts <= a.as_of_ts)
+                                /\ (Cut(a) /\ Has(v, "base") => FS \subseteq SeqSet(v.base)))
+         /\ Chk("search.acl", Enforce(a) /\ ~NeedTenant(a) => \A i \in 1..n : F(i) < Len(tab) => MQ!AclAllowed(AttrsOf(tab, F(i)).acl, a.ctx))   \* C12
+         /\ Chk("search.audit", (Has(a, "ctx") /\ ~Enforce(a) /\ ~Cut(a) /\ Has(v, "base_seq") /\ a.top_k >= Len(v.base_seq))
+                                   => [i \in 1..n |-> <<hits[i].f, hits[i].a, hits[i].b>>] = v.base_seq)
+         \* C09: a single-word query finds every committed active document containing the word (when they fit in top_k)
+         /\ (Has(a, "single") /\ Committed /\ ~Cut(a) /\ ~Enforce(a) /\ ~Has(a, "uri") =>
+               LET M == {i \in 0..(Len(tab) - 1) : tab[i + 1].st = "active" /\ a.single \in AttrsOf(tab, i).atoms} IN
+               (Cardinality(M) <= a.top_k /\ ~(M \subseteq FS)) =>
+                   IF "D09_sketch_recall" \in Defects /\ ~(Has(a, "no_sketch") /\ a.no_sketch) THEN Dev("D09_sketch_recall")
+                   ELSE Chk("search.recall", FALSE))
+         \* C16: the pages partition the result stream
+         /\ (Has(v, "pages") =>
+               LET cat == MQ!Concat(v.pages)
+                   good == /\ ~Has(v, "paging_err") /\ ~Has(v, "paging_runaway")
+                           /\ cat = v.oneshot
+                           /\ \A i \in 1..Len(v.totals) : v.totals[i] = v.oneshot_total IN
+               ~good => IF "D16_pagination" \in Defects THEN Dev("D16_pagination") ELSE Chk("search.pages", FALSE))
+         \* C28: the same query on the same table gives the same hits (as a set) whichever handle answers
+         /\ Chk("search.same", (Has(a, "qid") /\ a.qid \in DOMAIN qhist /\ qhist[a.qid].tab = TabKey(tab)) => qhist[a.qid].res = FS)
+  /\ Observed(Ev.obs)
+
+TVSearch ==
+  /\ IsEvent("vsearch") /\ Read("vsearch")
+  /\ LET a == Ev.args
+         tab == Tab
+         ids == {i \in 0..(Len(tab) - 1) : tab[i + 1].st = "active" /\ tab[i + 1].emb > 0}
+         embOf == [i \in ids |-> tab[i + 1].emb]
+         dim == IF Has(a, "dim") THEN a.dim ELSE 4
+         wrong == Has(a, "stored_dim") /\ a.stored_dim # dim IN
+     IF wrong THEN Chk("vsearch.dim", ~ResOk /\ ids # {} => ResErr("VecDimensionMismatch"))      \* C13: wrong dimension is rejected
+     ELSE IF ~ResOk THEN Chk("vsearch.error", ids = {} /\ ResErr("VecNotEnabled"))
+     ELSE /\ Chk("vsearch.exact", Committed => MQ!VecExact(Ev.res.val, embOf, a.emb, a.k, dim))
+          /\ Chk("vsearch.same", (Has(a, "qid") /\ a.qid \in DOMAIN qhist /\ qhist[a.qid].tab = TabKey(tab))
+                                   => qhist[a.qid].res = [i \in 1..Len(Ev.res.val) |-> Ev.res.val[i].d2])
+  /\ Observed(Ev.obs)
+
+\* the other retrieval paths (vector search with text, adaptive, ask): no inactive frame (C08), no denied frame (C12)
+TOtherSearch ==
+  /\ l <= Len(Rec) /\ Ev.ev \in {"vtext", "adaptive", "ask"} /\ l' = l + 1 /\ exists # "broken"
+  /\ Read(Ev.ev)
+  /\ LET a == Ev.args  tab == Tab IN
+     IF ~ResOk THEN Chk("other.error", NeedTenant(a) \/ ~Has(Ev.res, "panic"))
+     ELSE LET fs == SeqSet(Ev.res.val.frames) IN
+          /\ Chk("other.enforce", ~NeedTenant(a))
+          /\ Chk("other.active", \A f \in fs : f < Len(tab) /\ tab[f + 1].st = "active")
+          /\ Chk("other.acl", Enforce(a) /\ ~NeedTenant(a) => \A f \in fs : f < Len(tab) => MQ!AclAllowed(AttrsOf(tab, f).acl, a.ctx))
+          /\ Chk("other.asof", Has(a, "as_of_frame") => \A f \in fs : f <= a.as_of_frame)
+  /\ Observed(Ev.obs)
+
+QAttrNext == IF Ev.ev = "reset" THEN EmptyMap
+             ELSE IF Ev.ev \in {"put", "update"} /\ Has(Ev.args, "pay") /\ ResOk
+               THEN (Ev.args.pay * 1000 :> QAttrOf(Ev.args)) @@ qattr
+             ELSE qattr
+QHistNext == IF Ev.ev = "reset" THEN EmptyMap
+             ELSE IF Ev.ev \in {"search", "vsearch"} /\ ResOk /\ Has(Ev.args, "qid") /\ Ev.args.qid \notin DOMAIN qhist /\ Committed
+               THEN (Ev.args.qid :> [tab |-> TabKey(Tab),
+                                      res |-> IF Ev.ev = "search" THEN {Ev.res.val.hits[i].f : i \in 1..Len(Ev.res.val.hits)}
+                                              ELSE [i \in 1..Len(Ev.res.val) |-> Ev.res.val[i].d2]]) @@ qhist
+             ELSE qhist
+
+TraceNext == ((TraceStep \/ TSearch \/ TVSearch \/ TOtherSearch) /\ prev' = Snap /\ qattr' = QAttrNext /\ qhist' = QHistNext)
+             \/ (TCrash /\ UNCHANGED <<qattr, qhist>>)
 
 TraceSpec == TraceInit /\ [][TraceNext]_tvars
 
